@@ -1,10 +1,10 @@
 CONSTANTS
   Labels <- LabelsACStar
   Pool <- Pool2
-  MaxR = 3
+  MaxR = 2
   MaxC = 3
   Perms = "some"
 INIT Init
 NEXT Next
-INVARIANTS LayoutFree StarIsGap CorruptRejected MachineIsPRead
+INVARIANTS TablesOK
 CHECK_DEADLOCK FALSE
